@@ -2,13 +2,13 @@ package exec
 
 import (
 	"fmt"
-	"os"
-	"time"
 	"go/constant"
 	"go/token"
 	"go/types"
 	"math"
+	"os"
 	"strings"
+	"time"
 
 	"golang.org/x/tools/go/ssa"
 
@@ -567,18 +567,20 @@ func (st *State) execIf(fr *Frame, in *ssa.If) {
 		okO, mO := st.feasible(other)
 		if !okO {
 			if v {
+				st.noteImplied(c)
 				st.jump(fr, fr.block.Succs[0])
 			} else {
+				st.noteImplied(notc)
 				st.jump(fr, fr.block.Succs[1])
 			}
 			return
 		}
+		// the order of the alternatives must be the one the forced re-execution above uses
 		var k int
 		if v {
 			k = st.chooseWithModels([]*term.Node{c, notc}, []*term.Model{st.model, mO})
 		} else {
-			k = st.chooseWithModels([]*term.Node{notc, c}, []*term.Model{st.model, mO})
-			k = 1 - k
+			k = st.chooseWithModels([]*term.Node{c, notc}, []*term.Model{mO, st.model})
 		}
 		st.jump(fr, fr.block.Succs[k])
 		return
@@ -590,9 +592,11 @@ func (st *State) execIf(fr *Frame, in *ssa.If) {
 	case !okT && !okF:
 		panic(pathEnd{"infeasible"})
 	case okT && !okF:
+		st.noteImplied(c)
 		st.jump(fr, fr.block.Succs[0])
 		return
 	case okF && !okT:
+		st.noteImplied(notc)
 		st.jump(fr, fr.block.Succs[1])
 		return
 	}
@@ -609,6 +613,7 @@ func (st *State) chooseWithModels(guards []*term.Node, models []*term.Model) int
 		k := st.forced[st.forcedPos]
 		st.forcedPos++
 		st.decisions = append(st.decisions, k)
+		st.checkReplayedGuard(guards, k)
 		st.pushPC(guards[k])
 		return k
 	}
@@ -618,7 +623,7 @@ func (st *State) chooseWithModels(guards []*term.Node, models []*term.Model) int
 	st.flushObligs()
 	var alts []altern
 	for i := 1; i < len(guards); i++ {
-		alts = append(alts, altern{i, models[i]})
+		alts = append(alts, altern{i, models[i], guards[i]})
 	}
 	cp := &choicePoint{trailMark: st.instrMark, gs: copyGs(st.gs), curID: st.cur.id, pc: st.pc,
 		prefix: append([]int(nil), st.decisions...), alts: alts, serial: st.serial, mapDesc: st.mapDesc}
@@ -757,6 +762,9 @@ func (st *State) runArm(fr *Frame, succ *ssa.BasicBlock, join *ssa.BasicBlock, g
 	// collect effects
 	res = &armResult{writes: map[cellKey]Value{}}
 	for q := st.pc; q != nil && q != armBase; q = q.prev {
+		if q.implied {
+			continue
+		}
 		res.assumes = append(res.assumes, q.cond)
 	}
 	for i := mark; i < len(st.trail); i++ {
